@@ -257,6 +257,35 @@ def witnesses(prog, res):
               "footer field offsets changed: %s" % sorted(o for o in offs if o is not None))
 
 
+def reinit(prog, res):
+    """T13: a ZSTD_seekable can be initialised again with another archive and another access mode.  The reader limits what one
+    call may consume by `buffWrapper.size` (memory archives); that field belongs to the previous initialisation unless the
+    new one goes through the object's own memory wrapper.  Every path through ZSTD_seekable_initAdvanced therefore either
+    (re)writes buffWrapper or takes the edge on which the new source IS the object's memory wrapper.  And the table of the
+    previous archive is released where the new one is installed."""
+    R = "T13.reinit-resets-access-mode"
+    f = prog.fn("ZSTD_seekable_initAdvanced")
+    wr = f.find_roots(lambda x: x.get("k") == "asg" and x.get("op") == "=" and strip_casts(x["lhs"]).get("k") == "mem" and strip_casts(x["lhs"]).get("f") == "buffWrapper")
+    is_opaque = lambda a: any(y.get("k") == "mem" and y.get("f") == "opaque" for y in walk(a))
+    is_wrap = lambda b_: any(y.get("k") == "mem" and y.get("f") == "buffWrapper" for y in walk(b_))
+    same = guards.rel_edges(f, is_opaque, "==", is_wrap, truth=True)
+    loads = f.call_roots("ZSTD_seekable_loadSeekTable")
+    ok = bool(loads) and (bool(wr) or bool(same)) and f.must_pass(via_roots=wr, via_edges=same, targets=loads)
+    res.check(ok, R, "ZSTD_seekable_initAdvanced:buffWrapper", f.loc, "the memory wrapper is reset unless it is the new source",
+              "ZSTD_seekable_initAdvanced keeps the buffWrapper of a previous memory archive: after initBuff(A), initFile(B) the reader refuses "
+              "(seekableIO) any call that consumes more than sizeof(A) compressed bytes of B")
+    g = prog.fn("ZSTD_seekable_decompress")
+    uses = [x for b, i, x in g.events(lambda y: y.get("k") == "mem" and y.get("f") == "size") if any(z.get("f") == "buffWrapper" for z in walk(x))]
+    res.check(len(uses) >= 1, R, "ZSTD_seekable_decompress:reads-buffWrapper.size", g.loc, "%d read(s) of buffWrapper.size" % len(uses),
+              "the reader no longer consults buffWrapper.size: the rule above has lost its reason (re-read the reader)")
+    h = prog.fn("ZSTD_seekable_loadSeekTable")
+    inst = h.find_roots(lambda x: x.get("k") == "asg" and x.get("op") == "=" and strip_casts(x["lhs"]).get("k") == "mem" and strip_casts(x["lhs"]).get("f") == "entries")
+    fr = [t for t in h.call_roots("free") if any(y.get("k") == "mem" and y.get("f") == "entries" for y in walk(h.blocks[t[0]]["el"][t[1]]))]
+    res.check(bool(inst) and bool(fr) and h.must_pass(via_roots=fr, targets=inst), R, "ZSTD_seekable_loadSeekTable:previous-table-released", h.loc,
+              "seekTable.entries is freed before it is overwritten", "ZSTD_seekable_loadSeekTable overwrites seekTable.entries without releasing the previous table (leak on re-initialisation)")
+    res.need(R, 3)
+
+
 def run(tier):
     res = Result("C20", tier)
     tus, info = extract(["seekable", "common", "compress", "decompress"])
@@ -268,6 +297,7 @@ def run(tier):
     io_discipline(prog, res)
     compressor(prog, res)
     witnesses(prog, res)
+    reinit(prog, res)
     t4_common.run(prog, res, "T4.error-discipline", ["contrib/seekable_format/"], 12)
     # reading at or beyond the end: `eos - offset` is only computed when offset < eos
     f = prog.fn("ZSTD_seekable_decompress")
